@@ -55,7 +55,8 @@ def make_config(rng, anchored):
     if fam["content_exclude"]:
         t.append("exclude = [%s]" % json.dumps(pat("src/gen/**")))
     if fam["content_rule"]:
-        t += ["[[content.rules]]", "pattern = %s" % json.dumps(pat("src/util/**")), "max_lines = 100",
+        # a rule with its own warn point: files of 12-16 lines under src/util are WARNED under every spelling
+        t += ["[[content.rules]]", "pattern = %s" % json.dumps(pat("src/util/**")), "max_lines = 100", "warn_at = 5",
               "[[content.rules]]", "pattern = %s" % json.dumps(pat("tests/**")), "max_lines = 2"]
     t += ["[structure]", "max_files = 20"]
     if fam["count_exclude"]:
@@ -92,7 +93,7 @@ def canon_path(p, proj):
 
 def run_check(sb, exe, sp, extra=(), sub="src"):
     rc, out, err = sb.run(exe, ["check", *args_for(sp, sb.proj, sub), "--format", "json", "--color", "never", "--no-sloc-cache", *extra],
-                          env={"RAYON_NUM_THREADS": "2"})
+                          env={"RAYON_NUM_THREADS": "2", "PWD": sb.home})
     res = {}
     try:
         j = json.loads(out)
